@@ -1,12 +1,27 @@
 """C03 - outgoing packets are framed and padded as RFC 4253 section 6 requires"""
 import z3
-from contracts import packet
+from contracts import packet, message
 
 ID = "C03"
-TARGETS = ["paramiko.packet.Packetizer._build_packet"]
+TARGETS = ["paramiko.packet.Packetizer._build_packet", "paramiko.packet.Packetizer.send_message"]
 REPLAY = {"*": "c03.replay_build_packet"}
 TRUSTED = ["os.urandom(n) returns n bytes", "struct.pack('>IB') big-endian digits (pack32 opaque + lemmas)"]
 
 
 def setup(E):
+    message.declare(E)
     packet.declare(E)
+    packet.declare_send(E)
+
+
+def lemmas(E):
+    """table obligations: the sizes in the real _cipher_info / _mac_info satisfy the preconditions used above"""
+    out = []
+    sp = E.tables["special"]
+    for name, ci in sorted(sp["cipher_info"].items()):
+        bs = ci["block-size"]
+        out.append(("table::cipher_block_size_in_8_252[%s]" % name, [], z3.BoolVal(isinstance(bs, int) and 8 <= bs <= 252)))
+    for name, mi in sorted(sp["mac_info"].items()):
+        ok = isinstance(mi["size"], int) and isinstance(mi["digest_size"], int) and 0 < mi["size"] <= mi["digest_size"]
+        out.append(("table::mac_size_le_digest_size[%s]" % name, [], z3.BoolVal(ok)))
+    return out
